@@ -33,7 +33,8 @@ def eff_limit(mx, limit):
 def gen_scenario(rng, nops=28):
     mx = rng.choice([0, 0, 1, 2, 3, 5, -1, 1000])
     hh = 0 if rng.random() < 0.05 else 1
-    lines = [f"reset max={mx} meta={rng.choice([0, 0, 4000, 10000])} hh={hh}"]
+    sf = 1 if rng.random() < 0.5 else 0
+    lines = [f"reset max={mx} meta={rng.choice([0, 0, 4000, 10000])} hh={hh} sf={sf}"]
     chans = rng.choice([["a"], ["a", "b"]])
     t = rng.randint(1, 999)
     npub = {c: 0 for c in chans}
@@ -57,7 +58,12 @@ def gen_scenario(rng, nops=28):
                 since = f"{off}:{rng.choice([0, 0, 1, 1, 2, 99])}"
             limit = rng.choice([-1, -1, 0, 1, 2, 3, 5, 100, -5, I32MAX, I32MIN])
             rev = 1 if rng.random() < 0.45 else 0
-            lines.append(f"hist {ch} since={since} limit={limit} rev={rev} @{t}")
+            if rng.random() < 0.4:
+                # the client command overlaps a parked node-level call with another (or the same) limit
+                nl = rng.choice([-1, -1, 0, 1, 2, 100, eff_limit(mx, limit)])
+                lines.append(f"ohist {ch} since={since} limit={limit} rev={rev} nodelimit={nl} @{t}")
+            else:
+                lines.append(f"hist {ch} since={since} limit={limit} rev={rev} @{t}")
             lines.append(f"nodehist {ch} since={since} limit={eff_limit(mx, limit)} rev={rev} @{t}")
         elif k < 0.87:
             c = rng.choice(["c1", "c2", "c3", "c4"])
@@ -86,6 +92,12 @@ def oracle(scen, outs):
     closed = False
     for i, (line, out) in enumerate(zip(scen, outs)):
         ws = line.split()
+        if ws and ws[0] == "ohist":
+            # same statement as `hist`; the background call's own result is only diffed with the model
+            ws[0] = "hist"
+            if " bg=" not in out and out not in ("PANIC", "<missing>", "bad-op"):
+                return i, "broken", f"`{line}` -> `{out}`"
+            out = out.split(" bg=")[0]
         if not ws or line.startswith("#") or ws[0] == "reset":
             if ws and ws[0] == "reset" and out != "ok":
                 return i, "connect", f"connect failed: {out}"
@@ -131,6 +143,37 @@ def oracle(scen, outs):
     return None
 
 
+EXPECTED_KEY = [
+    'W("channel:")', 'W(ch)',
+    'if opts.Filter.Since != nil {',
+    'W(",offset:")', 'W(strconv.FormatUint(opts.Filter.Since.Offset, 10))',
+    'W(",epoch:")', 'W(opts.Filter.Since.Epoch)',
+    '}',
+    'W(",limit:")', 'W(strconv.Itoa(opts.Filter.Limit))',
+    'W(",reverse:")', 'W(strconv.FormatBool(opts.Filter.Reverse))',
+    'W(",meta_ttl:")', 'W(opts.MetaTTL.String())',
+    'key := builder.String()',
+]
+
+
+def single_flight_key_shape(repo):
+    """The statements that build the single-flight key in node.go `historySingleFlight`, normalised.
+    Model/HistoryCmd.lean `historyKey` (channel, since?, limit, reverse, metaTTL — limit unconditional)
+    and `historyKey_injective` describe exactly EXPECTED_KEY."""
+    import re
+    src = open(os.path.join(repo, "node.go")).read()
+    m = re.search(r"func \(n \*Node\) historySingleFlight\(.*?\n(.*?)\n\tresult, err, _ := historyGroup\.Do\(key,", src, re.S)
+    if not m:
+        return None
+    out = []
+    for l in m.group(1).splitlines():
+        l = l.strip()
+        if not l or l.startswith("//") or l == "var builder strings.Builder":
+            continue
+        out.append(l.replace("builder.WriteString(", "W("))
+    return out
+
+
 def shrink(ctx, binary, scen, kind):
     head, body = scen[0], list(scen[1:])
     budget = [60]
@@ -140,7 +183,7 @@ def shrink(ctx, binary, scen, kind):
             return False
         budget[0] -= 1
         ops = [head] + list(sub)
-        r = oracle(ops, ctx.go_run(binary, TEST, ops))
+        r = oracle(ops, ctx.go_run(binary, TEST, ops, timeout=60))
         return r is not None and r[1] == kind
     try:
         body = ddmin(body, fails)
@@ -154,8 +197,10 @@ def run(ctx):
                 "publishes building 1-2 channel histories (with TTL expiry), client history commands (since incl. "
                 "offset 0, top±, 2^63, 2^64-1, epochs empty/valid/bogus; limit in {-1,0,1,2,3,5,100,-5,int32 min/max}; "
                 "reverse) each followed by the node-level call with the effective filter; presence add/remove and "
-                "presence / presence_stats commands each followed by the node-level call; empty channel; one case = "
-                "one scenario (~28 ops)")
+                "presence / presence_stats commands each followed by the node-level call; empty channel; half of the "
+                "scenarios with Config.UseSingleFlight, 40% of the history commands issued while a node-level History "
+                "for the same channel/since/direction with another (or the same) limit is parked inside the broker; "
+                "one case = one scenario (~28 ops)")
     ctx.assumptions = [
         "the application handler passes the request through (cb(HistoryReply{}, nil)); a handler that substitutes "
         "its own result is outside the statement",
@@ -163,6 +208,10 @@ def run(ctx):
         "memory broker / memory presence manager",
     ]
     proofs_ok = ctx.lean_obligations()
+    from vlib.core import REPO
+    shape = single_flight_key_shape(REPO)
+    shape_ok = shape == EXPECTED_KEY
+    ctx.extra["single_flight_key_shape_ok"] = shape_ok
     binary = ctx.go_test_binary(".", HARNESS)
     if binary is None:
         ctx.violation("correspondence", "harness no longer builds against package centrifuge",
@@ -179,7 +228,7 @@ def run(ctx):
         for _ in range(ctx.scale(800, 12000)):
             scenarios.append(("gen", gen_scenario(ctx.rng)))
     ops = [l for _, s in scenarios for l in s]
-    impl = ctx.go_run(binary, TEST, ops)
+    impl = ctx.go_run(binary, TEST, ops, timeout=ctx.scale(400, 1500))
     if ctx.last_go_crash:
         ctx.notes.append("go harness: " + str(ctx.last_go_crash)[-400:])
     model = ctx.lean_run(ops)
@@ -194,6 +243,9 @@ def run(ctx):
         for l, o in zip(scen, outs):
             k = l.split()[0]
             ctx.count("op:" + k)
+            if k == "ohist":
+                k, o = "hist", o.split(" bg=")[0]
+                ctx.count("hist-overlapped" + (":singleflight" if " sf=1" in scen[0] else ""))
             if k in ("hist", "presence", "pstats"):
                 ctx.count(k + ":" + o.split()[0].split("=")[0] + ("=" + o.split("=")[1] if o.startswith(("err=", "disc=")) else ""))
         res = oracle(scen, outs)
@@ -202,7 +254,7 @@ def run(ctx):
             nviol[kind] = nviol.get(kind, 0) + 1
             if nviol[kind] <= 1:
                 small = shrink(ctx, binary, scen[:i + 2], kind)
-                souts = ctx.go_run(binary, TEST, small)
+                souts = ctx.go_run(binary, TEST, small, timeout=60)
                 sres = oracle(small, souts)
                 ctx.violation("property", sres[2] if sres else msg, signature={"kind": kind},
                               replay={"ops": small, "impl": souts, "origin": origin})
@@ -217,6 +269,14 @@ def run(ctx):
                                           "correspondence": "Model/HistoryCmd.lean vs client.go/node.go"},
                                   no_input=res is None)
                 break
+    if not shape_ok:
+        # the key builder no longer writes (channel, since?, limit, reverse, meta_ttl) as modelled by
+        # `historyKey`; a failing input was found iff the overlapped scenarios above caught it
+        ctx.violation("correspondence",
+                      "node.go historySingleFlight builds its key differently from Model/HistoryCmd.lean historyKey: "
+                      + json.dumps(shape),
+                      signature={"kind": "single-flight-key-shape"},
+                      replay={"found": shape, "expected": EXPECTED_KEY}, no_input=not nviol)
     ctx.traces_validated = len(scenarios)
     ctx.extra["disagreements"] = ndiff
     ctx.extra["ops_total"] = len(ops)
